@@ -155,7 +155,7 @@ func exhaustive14(r *Run, tier string) {
 	// quick: documents up to 3 nodes x paths up to length 3, documents of 4 nodes x paths up to length 2
 	scopes := []scope14{{1, 3, 3}, {4, 4, 2}}
 	// model sample: every strideN-th evaluation that returned a node, every stride-th other one
-	probeLen, stride, strideN := 2, 19997, 149
+	probeLen, stride, strideN := 2, 19997, 229
 	if tier == "thorough" {
 		scopes = []scope14{{1, 4, 3}, {5, 5, 2}}
 		stride, strideN = 199999, 1999
@@ -235,6 +235,8 @@ func exhaustive14(r *Run, tier string) {
 					one(case14{Op: "lookup", Doc: jb.doc, Path: p})
 					v := vz
 					one(case14{Op: "putscalar", Doc: jb.doc, Path: p, Value: &v})
+					one(case14{Op: "elemset", Doc: jb.doc, Path: p, API: &apiSpec{Keys: []string{"name"}, Values: []string{"x"},
+						Element: &vspec{"parse", "{name: x, b: z}"}}})
 					for _, name := range names {
 						one(case14{Op: "clear", Doc: jb.doc, Path: p, Name: name})
 						v1, v2 := vz, vw
@@ -289,7 +291,7 @@ func exhaustive14(r *Run, tier string) {
 	}
 	r.Meta.Notes = append(r.Meta.Notes, fmt.Sprintf(
 		"exhaustive part (closed spaces, every case run to completion): %v; documents over keys {a,b,name} / scalars {x,y,1} "+
-			"(maps with distinct keys, lists, nesting); path parts %v; ops {lookup, putscalar z, clear b|name, put b|name := z (then w)}; "+
+			"(maps with distinct keys, lists, nesting); path parts %v; ops {lookup, putscalar z, ElementSetter name=x := {name: x, b: z}, clear b|name, put b|name := z (then w)}; "+
 			"frame probes: all %d paths of length <= %d over the same parts; %d law evaluations. The random part of the run is not exhaustive.",
 		desc, enumParts, len(probePaths), probeLen, total))
 }
